@@ -1232,7 +1232,7 @@ func (s *server) ReadModifyWriteRow(ctx context.Context, req *btpb.ReadModifyWri
 			newCell = &btpb.Cell{TimestampMicros: ts, Value: append(prevVal, rule.AppendValue...)}
 		case *btpb.ReadModifyWriteRule_IncrementAmount:
 			var v int64
-			if prevVal != nil {
+			if len(col.Cells) > 0 { // an existing cell with an empty value is not a missing cell
 				if len(prevVal) != 8 {
 					return nil, fmt.Errorf("increment on non-64-bit value")
 				}
